@@ -86,6 +86,54 @@ TARGET_METHODS = [
 # ================================================================ end TRUSTED
 
 
+class Dialect:
+    """the trusted name tables + primitive templates of one target (the
+    tables above are the `dispatch` dialect; harness/py2v_shapes.py brings
+    its own for the value-conversion layer)"""
+    def __init__(self, **kw):
+        self.EXC_CLASS = {}
+        self.SELF_VALUE = {}
+        self.SELF_LIST = {}
+        self.SELF_ITEMS = {}
+        self.GLOBAL_VALUE = {}
+        self.READ_ATTR = {}
+        self.WRITE_ATTR = {}
+        self.FUNCS = {}
+        self.VALUE_METHOD = {}
+        self.SELF_PRIM = {}
+        self.CONSTS = {}            # module constants: name -> int
+        self.CLASSES = None         # isinstance classes: name -> Coq term
+        self.CTORS = {}             # constructor -> (slots, template)
+        self.CTOR_SIGS = {}         # constructor -> ast of its __init__
+        self.RAISE = {}             # raise <name>(consts) -> exn term
+        self.TUPLES = False         # (a, b) builds a tuple value
+        self.FUNCTIONS = False      # module-level functions with defaults
+        self.END = "ret (Norm tt)"  # falling off the end of the function
+        #                             (a text, or a function of the env)
+        self.SELF_VARS = []         # self.<attr> held in variables (params)
+        self.SELF_ALIAS = {}        # property -> the attribute it returns
+        self.MUTATORS = {}          # self.<var>.<m>(args): (arity, template
+        #                             of the NEW value of the variable)
+        self.CALL_LOG = {}          # parameter whose calls are recorded ->
+        #                             the self variable holding the record
+        self.FORMATS = {}           # "fmt" % (a, b): fmt -> (arity, template)
+        self.CTX = [("w", "world"), ("a", "app")]
+        self.T_GETATTR = "getattr_ w {0} {1}"
+        self.T_SUBSCRIPT = "subscript w a {0} {1}"
+        self.T_CONTAINS = "contains w a {0} {1}"
+        self.T_TRUTHY = "truthy {0}"
+        self.T_ISINSTANCE = "py_isinstance w {0} {1}"
+        self.T_INVOKE = "invoke w a {0} [{1}] {2}"
+        self.__dict__.update(kw)
+
+
+DISPATCH = Dialect(
+    EXC_CLASS=EXC_CLASS, SELF_VALUE=SELF_VALUE, SELF_LIST=SELF_LIST,
+    SELF_ITEMS=SELF_ITEMS, GLOBAL_VALUE=GLOBAL_VALUE, READ_ATTR=READ_ATTR,
+    WRITE_ATTR=WRITE_ATTR, FUNCS=FUNCS, VALUE_METHOD=VALUE_METHOD,
+    SELF_PRIM=SELF_PRIM)
+
+
 def is_self(node):
     return isinstance(node, ast.Name) and node.id == "self"
 
@@ -176,7 +224,8 @@ def indent(text, n=2):
 
 class Fn:
     """one translated method"""
-    def __init__(self, methods, fundef, gen_name, facts):
+    def __init__(self, methods, fundef, gen_name, facts, dialect=None):
+        self.d = dialect or DISPATCH
         self.methods = methods      # already translated: name -> info
         self.fundef = fundef
         self.name = gen_name
@@ -189,6 +238,7 @@ class Fn:
         self.loop_depth = 0
         self.nh = 0
         self.hstack = []
+        self.try_depth = 0
         self.stype = ["unit"]      # state type of the enclosing block
 
     # ------------------------------------------------------------ helpers
@@ -197,10 +247,12 @@ class Fn:
         return "%s%d" % (base, self.n)
 
     def ctx_params(self):
-        return "(w : world) (a : app)" + (" (f : facts)" if self.facts else "")
+        return " ".join("(%s : %s)" % x for x in self.d.CTX) + (
+            " (f : facts)" if self.facts else "")
 
     def ctx_args(self):
-        return "w a" + (" f" if self.facts else "")
+        return " ".join(x for x, _ in self.d.CTX) + (
+            " f" if self.facts else "")
 
     def need_facts(self, node):
         if not self.facts:
@@ -247,6 +299,12 @@ class Fn:
         finally:
             self.hstack = saved
 
+    def selfkey(self, node):
+        """env key of the expression self.<attr>, else None"""
+        if isinstance(node, ast.Attribute) and is_self(node.value):
+            return "self." + self.d.SELF_ALIAS.get(node.attr, node.attr)
+        return None
+
     def mterm(self, node, env):
         pure, t = self.expr(node, env)
         return "(ret %s)" % t if pure else t
@@ -265,33 +323,60 @@ class Fn:
                 return True, "(DV (PStr %s))" % py2v.strlit(v)
             raise Unsupported(node, "constant")
         if isinstance(node, ast.Tuple):
-            if node.elts or not isinstance(node.ctx, ast.Load):
+            if not isinstance(node.ctx, ast.Load):
                 raise Unsupported(node, "tuple")
-            return True, "(DV (PTuple []))"
+            if not node.elts:
+                return True, "(DV (PTuple []))"
+            if not self.d.TUPLES or any(isinstance(x, ast.Starred)
+                                        for x in node.elts):
+                raise Unsupported(node, "tuple")
+            if all(self.expr(x, env)[0] for x in node.elts):
+                return True, "(mk_tuple [%s])" % "; ".join(
+                    self.expr(x, env)[1] for x in node.elts)
+            return False, self.sub_vals(
+                list(node.elts), env,
+                lambda t: "ret (mk_tuple [%s])" % "; ".join(t))
         if isinstance(node, ast.Name):
             if node.id in env:
                 return True, env[node.id]
             if node.id == "self":
                 return True, "DSelf"
-            if node.id in GLOBAL_VALUE:
-                return True, GLOBAL_VALUE[node.id]
+            if node.id in self.d.GLOBAL_VALUE:
+                return True, self.d.GLOBAL_VALUE[node.id]
+            if node.id in self.d.CONSTS:
+                return True, "(DV (PInt %s))" % py2v.zl(self.d.CONSTS[node.id])
             raise Unsupported(node, "unknown name")
         if isinstance(node, ast.Attribute):
             if is_self(node.value):
-                if node.attr in SELF_VALUE:
-                    return True, SELF_VALUE[node.attr]
+                key = self.selfkey(node)
+                if key in env:
+                    return True, env[key]
+                if node.attr in self.d.SELF_VALUE:
+                    return True, self.d.SELF_VALUE[node.attr]
                 raise Unsupported(node, "attribute of self")
-            if node.attr not in READ_ATTR:
+            if node.attr not in self.d.READ_ATTR:
                 raise Unsupported(node, "attribute")
             return False, self.sub_vals(
                 [node.value], env,
-                lambda t: "getattr_ w %s %s" % (t[0], READ_ATTR[node.attr]))
+                lambda t: self.d.T_GETATTR.format(t[0],
+                                                  self.d.READ_ATTR[node.attr]))
         if isinstance(node, ast.Subscript):
             if isinstance(node.slice, ast.Slice):
                 raise Unsupported(node, "slice")
             return False, self.sub_vals(
                 [node.value, node.slice], env,
-                lambda t: "subscript w a %s %s" % (t[0], t[1]))
+                lambda t: self.d.T_SUBSCRIPT.format(t[0], t[1]))
+        if isinstance(node, ast.BinOp):
+            if not (isinstance(node.op, ast.Mod)
+                    and isinstance(node.left, ast.Constant)
+                    and node.left.value in self.d.FORMATS):
+                raise Unsupported(node, "operator")
+            arity, tmpl = self.d.FORMATS[node.left.value]
+            if not (isinstance(node.right, ast.Tuple)
+                    and len(node.right.elts) == arity):
+                raise Unsupported(node, "format arity")
+            return False, self.sub_vals(list(node.right.elts), env,
+                                         lambda t: tmpl.format(*t))
         if isinstance(node, ast.BoolOp):
             op = "v_and" if isinstance(node.op, ast.And) else "v_or"
             terms = [self.mterm(v, env) for v in node.values]
@@ -342,7 +427,7 @@ class Fn:
             neg = isinstance(op, (ast.NotIn, ast.IsNot, ast.NotEq))
             if isinstance(op, (ast.In, ast.NotIn)):
                 operands = [node.left, right]
-                fmt = "contains w a {0} {1}"
+                fmt = self.d.T_CONTAINS
             elif isinstance(op, (ast.Is, ast.IsNot)):
                 if not (isinstance(right, ast.Constant)
                         and right.value is None):
@@ -351,20 +436,33 @@ class Fn:
                 fmt = "is_none {0}"
             elif isinstance(op, (ast.Eq, ast.NotEq)):
                 operands = [node.left, right]
-                fmt = "truthy (py_eq {0} {1})"
+                fmt = self.d.T_TRUTHY.format("(py_eq {0} {1})")
             else:
                 raise Unsupported(node, "comparison")
             return self.test_of(operands, env, fmt, neg)
         if self.is_isinstance(node):
             if len(node.args) != 2 or node.keywords:
                 raise Unsupported(node, "isinstance shape")
+            if self.d.CLASSES is not None:
+                cl = node.args[1]
+                items = cl.elts if isinstance(cl, ast.Tuple) else [cl]
+                if not items or not all(isinstance(x, ast.Name)
+                                        and x.id in self.d.CLASSES
+                                        and x.id not in env for x in items):
+                    raise Unsupported(cl, "isinstance class")
+                names_ = "[%s]" % "; ".join(self.d.CLASSES[x.id]
+                                            for x in items)
+                return self.test_of(
+                    [node.args[0]], env,
+                    self.d.T_ISINSTANCE.format("{0}", names_), False)
             return self.test_of(list(node.args), env,
-                                "py_isinstance w {0} {1}", False)
+                                self.d.T_ISINSTANCE, False)
         pure, t = self.expr(node, env)
         if pure:
-            return True, "(truthy %s)" % t
+            return True, "(%s)" % self.d.T_TRUTHY.format(t)
         x = self.fresh()
-        return False, "(bind %s (fun %s => ret (truthy %s)))" % (t, x, x)
+        return False, "(bind %s (fun %s => ret (%s)))" % (
+            t, x, self.d.T_TRUTHY.format(x))
 
     def test_of(self, operands, env, fmt, neg):
         wrap = "(negb (%s))" if neg else "(%s)"
@@ -377,6 +475,11 @@ class Fn:
 
     def call(self, node, env):
         f = node.func
+        if isinstance(f, ast.Name) and f.id not in env:
+            if f.id in self.d.CTORS:
+                return False, self.call_ctor(node, env)
+            if f.id in self.methods and self.methods[f.id].get("function"):
+                return False, self.call_function(node, env)
         if any(isinstance(x, ast.Starred) for x in node.args):
             raise Unsupported(node, "starred argument")
         kwdict = None
@@ -385,9 +488,9 @@ class Fn:
                 raise Unsupported(node, "keyword argument")
             kwdict = kw.value
         if isinstance(f, ast.Name) and f.id not in env:
-            if f.id not in FUNCS:
+            if f.id not in self.d.FUNCS:
                 raise Unsupported(node, "call of unknown function")
-            arity, pure, tmpl, facts = FUNCS[f.id]
+            arity, pure, tmpl, facts = self.d.FUNCS[f.id]
             if len(node.args) != arity or node.keywords:
                 raise Unsupported(node, "arity of %s" % f.id)
             if facts:
@@ -403,8 +506,8 @@ class Fn:
             if is_self(f.value):
                 if f.attr in self.methods:
                     return False, self.call_generated(node, env, kwdict)
-                if f.attr in SELF_PRIM:
-                    arity, tmpl = SELF_PRIM[f.attr]
+                if f.attr in self.d.SELF_PRIM:
+                    arity, tmpl = self.d.SELF_PRIM[f.attr]
                     if len(node.args) != arity or node.keywords:
                         raise Unsupported(node, "arity of %s" % f.attr)
                     self.need_facts(node)
@@ -415,11 +518,12 @@ class Fn:
                     return False, self.sub_vals(list(node.args), env,
                                                  lambda t: tmpl.format(*t))
                 raise Unsupported(node, "method of self")
-            if f.attr in VALUE_METHOD:
-                if node.args or node.keywords:
+            if f.attr in self.d.VALUE_METHOD:
+                ent = self.d.VALUE_METHOD[f.attr]
+                arity, tmpl = ent if isinstance(ent, tuple) else (0, ent)
+                if len(node.args) != arity or node.keywords:
                     raise Unsupported(node, "arity of %s" % f.attr)
-                tmpl = VALUE_METHOD[f.attr]
-                return False, self.sub_vals([f.value], env,
+                return False, self.sub_vals([f.value] + list(node.args), env,
                                              lambda t: tmpl.format(*t))
             raise Unsupported(node, "method call")
         if (isinstance(f, ast.Name) and f.id in env) or \
@@ -429,8 +533,8 @@ class Fn:
             def fin(t):
                 n = len(node.args)
                 kw = "(Some %s)" % t[n + 1] if kwdict else "None"
-                return "invoke w a %s [%s] %s" % (t[0], "; ".join(t[1:n + 1]),
-                                                  kw)
+                return self.d.T_INVOKE.format(t[0], "; ".join(t[1:n + 1]),
+                                              kw)
             return False, self.sub_vals(nodes, env, fin)
         raise Unsupported(node, "call")
 
@@ -448,8 +552,71 @@ class Fn:
             args = list(t)
             if info["kwarg"] and kwdict is None:
                 args.append("DKw")
-            return "%s w a%s %s" % (info["gen"], " f" if info["facts"] else "",
-                                    " ".join(args))
+            return "%s %s%s %s" % (info["gen"],
+                                   " ".join(x for x, _ in self.d.CTX),
+                                   " f" if info["facts"] else "",
+                                   " ".join(args))
+        return self.sub_vals(nodes, env, fin)
+
+    def call_function(self, node, env):
+        """f(*t) for a translated module-level function f: Python's
+        argument binding of a splatted tuple against f's signature"""
+        info = self.methods[node.func.id]
+        if len(node.args) != 1 or node.keywords or \
+                not isinstance(node.args[0], ast.Starred):
+            raise Unsupported(node, "call shape of %s" % node.func.id)
+        n = len(info["params"])
+        xs = ["y%d" % i for i in range(1, n + 1)]
+        ctx = " ".join(x for x, _ in self.d.CTX)
+        adapter = "(fun l => match l with [%s] => %s %s %s | _ => raise " \
+            "ETypeErr end)" % ("; ".join(xs), info["gen"], ctx, " ".join(xs))
+        return self.sub_vals(
+            [node.args[0].value], env,
+            lambda t: "call_splat %d [%s] %s %s" % (
+                n, "; ".join(info["defaults"]), adapter, t[0]))
+
+    def call_ctor(self, node, env):
+        """Cls(args, kw=...) for a response class: the arguments are bound
+        BY THE SOURCE SIGNATURE of Cls.__init__ (positional order, keyword
+        names, default constants) to the named slots of the primitive"""
+        name = node.func.id
+        slots, tmpl = self.d.CTORS[name]
+        sig = self.d.CTOR_SIGS[name].args
+        if sig.posonlyargs or sig.kwonlyargs or sig.vararg or \
+                not sig.args or sig.args[0].arg != "self":
+            raise Unsupported(node, "signature of %s" % name)
+        params = [x.arg for x in sig.args[1:]]
+        if sorted(params) != sorted(slots):
+            raise Unsupported(node, "signature of %s: %s" % (name, params))
+        defaults = dict(zip(params[len(params) - len(sig.defaults):],
+                            sig.defaults))
+        if any(isinstance(x, ast.Starred) for x in node.args) or \
+                len(node.args) > len(params):
+            raise Unsupported(node, "arguments of %s" % name)
+        given = {}
+        nodes = []
+        for p_, x in zip(params, node.args):
+            given[p_] = len(nodes)
+            nodes.append(x)
+        for kw in node.keywords:
+            if kw.arg is None or kw.arg not in params or kw.arg in given:
+                raise Unsupported(node, "keyword of %s" % name)
+            given[kw.arg] = len(nodes)
+            nodes.append(kw.value)
+
+        def fin(t):
+            vals = []
+            for s_ in slots:
+                if s_ in given:
+                    vals.append(t[given[s_]])
+                elif s_ in defaults:
+                    pure, d = self.expr(defaults[s_], {})
+                    if not pure:
+                        raise Unsupported(defaults[s_], "default value")
+                    vals.append(d)
+                else:
+                    raise Unsupported(node, "missing argument %s" % s_)
+            return tmpl.format(*vals)
         return self.sub_vals(nodes, env, fin)
 
     # --------------------------------------------------------- statements
@@ -478,7 +645,8 @@ class Fn:
             raise Unsupported(rest[0], "statements after a compound "
                               "statement inside a loop body")
         cand = list(env) + [s for s in stores(st) if s not in env]
-        pnames = [v for v in cand if v in live_rest]
+        pnames = [v for v in cand
+                  if v in live_rest or v.startswith("self.")]
         self.nk += 1
         kname = "%s_k%d" % (self.name, self.nk)
         params = [self.fresh() for _ in pnames]
@@ -498,6 +666,14 @@ class Fn:
                 return "ret (Retn (DV PNone))"
             return self.with_vals([st.value], env,
                                   lambda t: "ret (Retn %s)" % t[0])
+        if isinstance(st, ast.Raise):
+            e = st.exc
+            if st.cause is not None or not (
+                    isinstance(e, ast.Call) and isinstance(e.func, ast.Name)
+                    and e.func.id in self.d.RAISE and not e.keywords
+                    and all(isinstance(x, ast.Constant) for x in e.args)):
+                raise Unsupported(st, "raise")
+            return "raise %s" % self.d.RAISE[e.func.id]
         if isinstance(st, ast.Break):
             if not self.break_k:
                 raise Unsupported(st, "break outside loop")
@@ -505,6 +681,9 @@ class Fn:
         if isinstance(st, ast.Expr):
             if not isinstance(st.value, ast.Call):
                 raise Unsupported(st, "expression statement")
+            upd = self.state_update(st, env, cont)
+            if upd is not None:
+                return upd
             pure, t = self.expr(st.value, env)
             if pure:
                 return cont(env)
@@ -524,12 +703,12 @@ class Fn:
                     return "(let %s := %s in\n%s)" % (x, t, cont(e2))
                 return self.bind(env, t, x, cont(e2))
             if isinstance(tg, ast.Attribute):
-                if is_self(tg.value) or tg.attr not in WRITE_ATTR:
+                if is_self(tg.value) or tg.attr not in self.d.WRITE_ATTR:
                     raise Unsupported(st, "attribute store")
                 return self.with_vals(
                     [st.value, tg.value], env,
                     lambda t: self.bind(env, "setattr_ %s %s %s" % (
-                        t[1], WRITE_ATTR[tg.attr], t[0]), "_", cont(env)))
+                        t[1], self.d.WRITE_ATTR[tg.attr], t[0]), "_", cont(env)))
             if isinstance(tg, ast.Subscript):
                 if isinstance(tg.slice, ast.Slice):
                     raise Unsupported(st, "slice store")
@@ -539,6 +718,37 @@ class Fn:
                         t[1], t[2], t[0]), "_", cont(env)))
             raise Unsupported(st, "assignment target")
         raise Unsupported(st, "statement")
+
+    def state_update(self, st, env, cont):
+        """self.<var>.<mutator>(args) and calls of a recorded parameter:
+        the statement rebinds the variable that holds the object's state"""
+        c = st.value
+        if c.keywords or any(isinstance(x, ast.Starred) for x in c.args):
+            return None
+        if isinstance(c.func, ast.Attribute) and \
+                c.func.attr in self.d.MUTATORS and \
+                self.selfkey(c.func.value) in env:
+            key = self.selfkey(c.func.value)
+            arity, tmpl = self.d.MUTATORS[c.func.attr]
+            if len(c.args) != arity:
+                raise Unsupported(st, "arity of %s" % c.func.attr)
+        elif isinstance(c.func, ast.Name) and c.func.id in env and \
+                c.func.id in self.d.CALL_LOG:
+            key = self.d.CALL_LOG[c.func.id]
+            tmpl = None
+        else:
+            return None
+        if self.loop_depth or self.try_depth or key not in env:
+            raise Unsupported(st, "state update inside try/loop")
+        x = self.fresh()
+        e2 = dict(env)
+        e2[key] = x
+
+        def fin(t):
+            m = tmpl.format(env[key], *t) if tmpl else \
+                "log_call %s [%s]" % (env[key], "; ".join(t))
+            return self.bind(env, m, x, cont(e2))
+        return self.with_vals(list(c.args), env, fin)
 
     def compound(self, st, env, cont, live_rest):
         if isinstance(st, ast.If):
@@ -563,9 +773,9 @@ class Fn:
         items = node.elts if isinstance(node, ast.Tuple) else [node]
         out = []
         for it in items:
-            if not (isinstance(it, ast.Name) and it.id in EXC_CLASS):
+            if not (isinstance(it, ast.Name) and it.id in self.d.EXC_CLASS):
                 raise Unsupported(it, "exception class")
-            out.append(EXC_CLASS[it.id])
+            out.append(self.d.EXC_CLASS[it.id])
         if not out:
             raise Unsupported(node, "empty exception tuple")
         return out
@@ -620,6 +830,7 @@ class Fn:
             if h.name:
                 e2.pop(h.name, None)
         self.stype.append(tup_type(len(svars)))
+        self.try_depth += 1
         if not seen:
             body = self.block(st.body, env, k_norm, live_rest)
             term = "try_catch\n%s\n  %s" % (indent(body, 4), clauses(env))
@@ -647,6 +858,7 @@ class Fn:
             body = self.block(st.body, env, k_norm, live_rest)
             self.hstack.pop()
             term = body
+        self.try_depth -= 1
         self.stype.pop()
         new = [self.fresh() for _ in svars]
         e2.update(zip(svars, new))
@@ -657,15 +869,15 @@ class Fn:
 
     def iterable(self, node):
         if isinstance(node, ast.Attribute) and is_self(node.value) and \
-                node.attr in SELF_LIST:
-            return "list", SELF_LIST[node.attr]
+                node.attr in self.d.SELF_LIST:
+            return "list", self.d.SELF_LIST[node.attr]
         if isinstance(node, ast.Call) and not node.args and \
                 not node.keywords and isinstance(node.func, ast.Attribute) \
                 and node.func.attr == "items" and \
                 isinstance(node.func.value, ast.Attribute) and \
                 is_self(node.func.value.value) and \
-                node.func.value.attr in SELF_ITEMS:
-            return "items", SELF_ITEMS[node.func.value.attr]
+                node.func.value.attr in self.d.SELF_ITEMS:
+            return "items", self.d.SELF_ITEMS[node.func.value.attr]
         raise Unsupported(node, "iterable")
 
     def for_(self, st, env, cont, live_rest):
@@ -737,21 +949,48 @@ class Fn:
     # ----------------------------------------------------------- function
     def translate(self):
         a = self.fundef.args
+        if self.fundef.decorator_list:
+            raise Unsupported(self.fundef, "decorator")
+        if self.d.FUNCTIONS:
+            return self.translate_function()
         if a.posonlyargs or a.kwonlyargs or a.vararg or a.defaults or \
                 a.kw_defaults or not a.args or a.args[0].arg != "self":
             raise Unsupported(self.fundef, "signature")
-        if self.fundef.decorator_list:
-            raise Unsupported(self.fundef, "decorator")
         params = [x.arg for x in a.args[1:]]
         allp = params + ([a.kwarg.arg] if a.kwarg else [])
+        allp += ["self." + v for v in self.d.SELF_VARS]
         env = {p: self.fresh() for p in allp}
-        body = self.block(self.fundef.body, env,
-                          lambda e: "ret (Norm tt)", set())
+        body = self.block(self.fundef.body, env, self.end, set())
         sig = " (%s : dv)" % " ".join(env[p] for p in allp) if allp else ""
         self.defs.append("Definition %s %s%s : M dv :=\n  run_fn (\n%s)." % (
             self.name, self.ctx_params(), sig, indent(body, 4)))
         return {"gen": self.name, "params": params,
                 "kwarg": bool(a.kwarg), "facts": self.facts}
+
+    def end(self, env):
+        return self.d.END(env) if callable(self.d.END) else self.d.END
+
+    def translate_function(self):
+        """a module-level function; its default values (constants) are
+        recorded for the callers"""
+        a = self.fundef.args
+        if a.posonlyargs or a.kwonlyargs or a.vararg or a.kwarg or \
+                a.kw_defaults or (a.args and a.args[0].arg == "self"):
+            raise Unsupported(self.fundef, "signature")
+        params = [x.arg for x in a.args]
+        defaults = []
+        for dnode in a.defaults:
+            pure, t = self.expr(dnode, {})
+            if not pure:
+                raise Unsupported(dnode, "default value")
+            defaults.append(t)
+        env = {p: self.fresh() for p in params}
+        body = self.block(self.fundef.body, env, self.end, set())
+        sig = " (%s : dv)" % " ".join(env[p] for p in params) if params else ""
+        self.defs.append("Definition %s %s%s : M dv :=\n  run_fn (\n%s)." % (
+            self.name, self.ctx_params(), sig, indent(body, 4)))
+        return {"gen": self.name, "params": params, "defaults": defaults,
+                "kwarg": False, "facts": False, "function": True}
 
 
 HEADER = """(* GENERATED by harness/py2v_dispatch.py from poorwsgi/wsgi.py \
